@@ -64,7 +64,7 @@ type dbIn struct {
 	Cases []dbCase `json:"cases"`
 	Gates bool     `json:"gates"` // seeded delays at the scheduling gates
 	// how the database directory is spelled when it is handed to NewSimpleDB: "" (clean) | "slash" (trailing /) | "dslash" (// inside) |
-	// "dot" (/./ inside) | "glob" (the directory NAME contains glob metacharacters)
+	// "dot" (/./ inside) | "glob" (the directory NAME contains glob metacharacters) | "rel" (relative to the working directory)
 	DirStyle string `json:"dirstyle"`
 	Seed  int64    `json:"seed"`
 }
@@ -304,6 +304,12 @@ func runDB(args []string) error {
 			x.openDir = in.Dir + "//" + name
 		case "dot":
 			x.openDir = in.Dir + "/./" + name + "/."
+		case "rel":
+			// relative to the working directory
+			if err := os.Chdir(in.Dir); err != nil {
+				return err
+			}
+			x.openDir = name
 		}
 		for _, s := range c.Steps {
 			db, err = x.step(db, s, 0)
